@@ -1,3 +1,4 @@
 import Driver.Util
 import Driver.Ops.Data
 import Driver.Ops.Reply
+import Driver.Ops.Proxy
